@@ -520,13 +520,17 @@ def check_framing(ctx, sizes):
             and 'seq' in kw and tq.match(S.expr('os.getpid()'), kw.get('pid', NONE)) is not None
     ctx.check(ok, 'L4', 'nlmsghdr: length = header size + length of everything that follows it on the wire, type and flags as requested',
               key=('L4', 'header'), site=site, detail={'header': tq.text(hdr, 500) if hdr is not None else None})
-    ok = len(body) == 2 and tq.match(S.expr('bytearray(%s)' % ps[2]), body[0]) is not None
+    ok = len(body) == 2 and (tq.match(S.expr('bytearray(%s)' % ps[2]), body[0]) is not None or
+                             tq.match(S.expr('bytes(%s)' % ps[2]), body[0]) is not None)
     if ok:
         it = body[1]
         cond = ()
         if it[0] == 'when':
             cond, it = it[1], it[2]
-        ok = it[0] == 'sum' and tq.is_call(it[2], 'method.items') and it[2][2] == ('param', ps[3]) and tq.is_call(it[3], 'builtins.bytes') \
+        # the table iterated is the `attributes` argument (or nothing when it is empty / None: `(attributes or {}).items()`)
+        table_ok = it[0] == 'sum' and tq.is_call(it[2], 'method.items') and (
+            it[2][2] == ('param', ps[3]) or (it[2][2][0] == 'or' and tuple(it[2][2][1]) == (('param', ps[3]), ('dict', ()))))
+        ok = table_ok and tq.is_call(it[3], 'builtins.bytes') \
             and tq.is_call(tq.args(it[3]).get('#0', NONE), 'netlink.NetlinkProtocol._attribute_factory') \
             and all(a[0] == ('param', ps[3]) and a[1] for a in cond)
         if ok:
@@ -559,7 +563,8 @@ def check_framing(ctx, sizes):
     rs = [(pc, t) for pc, t, _ in S.raises if tq.is_call(t, 'new netlink.NetlinkError')]
     ok = len(rs) == 1
     if ok:
-        atoms = [a for a in rs[0][0] if not (a[0][0] == 'cmp' and tq.find_calls(a[0], 'builtins.len') and not tq.find_calls(a[0], 'netlink.NetlinkProtocol.parse_message'))]
+        # (the loop test - something is left in the buffer - says nothing about the message parsed)
+        atoms = [a for a in rs[0][0] if tq.find_calls(a[0], 'netlink.NetlinkProtocol.parse_message')]
         msgs = {strip_ids(x) for a in atoms for x in tq.find_calls(a[0], 'netlink.NetlinkProtocol.parse_message')}
         ok = len(msgs) == 1
         if ok:
